@@ -38,6 +38,9 @@ def extra_args(ctx):
 
 def decode(p):
     f = p.split(" ")
+    if len(f) > 4 and f[1] == "R":
+        return {"mode": "one AST evaluated repeatedly / concurrently, bridged call sites re-entered", "goroutines": f[2],
+                "rounds": f[3], "main(postfix)": f[4], "functions(name;params;base;step)": f[5:]}
     try:
         return {"function": f[0], "mode": {"D": "Run called directly", "I": "ECAL call", "T": "ECAL call inside try"}[f[1]],
                 "signature(params;variadic;results)": f[2], "body": f[3], "args": f[4:]}
@@ -61,7 +64,12 @@ SPEC = dict(
           "where one exists) and inside try (arguments in variables) for length <=2 exhaustively and 3 (thorough: 3 and 4) sampled. Compared: outcome class (value / the function's own "
           "error / bridge error / escaped panic), the returned value (float64 bits, canonical structure), and the "
           "Go values the function RECEIVED (kind + exact integer); where an argument is converted out of its parameter kind's range "
-          "(implementation-defined in Go) only the outcome class is compared. Non-trivial = the call reaches the function body."),
+          "(implementation-defined in Go) only the outcome class is compared. Plus mode R (interpreter side, rt_identifier.go): small recursive programs "
+          "(direct recursion through the 1st / 2nd / middle / last / all arguments of a bridged call, mutual recursion, the call site in a user "
+          "function called twice / three times, nested calls at different sites and the same site, random two-function programs) parsed ONCE and "
+          "evaluated 1-3 (thorough: up to 6) times by 1, 2, 4, 8 goroutines; compared: the final value and the sequence (one goroutine) / "
+          "multiset (several) of argument vectors the bridged Go functions received, against the reference semantics Ecal.Reentry.eval. "
+          "Non-trivial = the call reaches the function body."),
     exhaustive="all argument vectors up to the stated length for every function",
     trusted_base=[
         "reflect's behaviour (Call panics, TypeOf, Kind) as modelled in Ecal.Bridge — tied by the correspondence run",
